@@ -205,18 +205,18 @@ fn canon_caps(caps: &[packet::Capability]) -> Term {
 // ------------------------------------------------------------------ neg
 
 fn codec_t(c: &mut bgp::PeerCodec) -> Term {
-    let mut fams: Vec<(u32, bool, bool)> = c
+    let mut fams: Vec<(u32, bool, bool, bool)> = c
         .families_iter()
         .collect::<Vec<_>>()
         .into_iter()
         .map(|f| {
             let s = c.family_state(f).unwrap();
-            (fam_raw(f), s.addpath_rx, s.addpath_tx)
+            (fam_raw(f), s.addpath_rx, s.addpath_tx, c.extended_nexthop(f))
         })
         .collect();
     fams.sort();
-    // extended next hop is a private flag: observe it through the encoder (an IPv4 unicast
-    // withdrawal goes into MP_UNREACH iff the flag is set, otherwise into the withdrawn field).
+    // what the encoder does with it: an IPv4 unicast withdrawal goes into MP_UNREACH iff extended
+    // next hop is used for IPv4 unicast, otherwise into the withdrawn-routes field.
     let msg = bgp::Message::Update(bgp::Update::Unreach {
         family: Family::IPV4,
         entries: vec![packet::PathNlri::new(packet::Nlri::V4(packet::bgp::Ipv4Net {
@@ -233,8 +233,7 @@ fn codec_t(c: &mut bgp::PeerCodec) -> Term {
         "codec",
         vec![
             Term::list(
-                fams.into_iter()
-                    .map(|(f, rx, tx)| Term::list(vec![Term::nat(f), Term::boolean(rx), Term::boolean(tx)]))
+                fams.into_iter().map(|(f, rx, tx, e)| Term::list(vec![Term::nat(f), Term::boolean(rx), Term::boolean(tx), Term::boolean(e)]))
                     .collect(),
             ),
             Term::boolean(c.extended_length),
@@ -566,20 +565,128 @@ struct PeerCase {
     group: Option<String>,
 }
 
+/// The same neighbour as a gRPC `Peer` message, when it can be written as one: no prefix limits
+/// (the API carries none), no GR / LLGR block, a hold time the API can express, an add-path mode per
+/// family that agrees with the send-max (tx bit <=> a send-max of 1..=255), and an expected AS or a group.
+fn api_peer_of(pc: &PeerCase) -> Option<api::Peer> {
+    let p = &pc.params;
+    if !p.prefix_limits.is_empty() || p.graceful_restart.is_some() || p.llgr.is_some() {
+        return None;
+    }
+    if p.holdtime == 0 || (p.holdtime != PeerParams::DEFAULT_HOLD_TIME && !(3..=65535).contains(&p.holdtime)) {
+        return None;
+    }
+    if p.expected_remote_asn == 0 && pc.group.is_none() {
+        return None;
+    }
+    let mut fams: Vec<(Family, u8)> = p.families.iter().map(|(f, m)| (*f, *m)).collect();
+    fams.sort_by_key(|(f, _)| fam_raw(*f));
+    for (f, m) in &fams {
+        let sm = p.send_max.get(f).copied().unwrap_or(0);
+        if *m > 3 || (m & 2 != 0) != (sm > 0) || sm > 255 {
+            return None;
+        }
+    }
+    if p.send_max.keys().any(|f| !p.families.contains_key(f)) {
+        return None;
+    }
+    let afi_safis = fams
+        .iter()
+        .map(|(f, m)| api::AfiSafi {
+            config: Some(api::AfiSafiConfig {
+                family: Some(api::Family {
+                    afi: f.afi() as i32,
+                    safi: f.safi() as i32,
+                }),
+                enabled: true,
+            }),
+            add_paths: Some(api::AddPaths {
+                config: Some(api::AddPathsConfig {
+                    receive: m & 1 != 0,
+                    send_max: p.send_max.get(f).copied().unwrap_or(0) as u32,
+                }),
+                ..Default::default()
+            }),
+            ..Default::default()
+        })
+        .collect();
+    Some(api::Peer {
+        conf: Some(api::PeerConf {
+            neighbor_address: p.remote_addr.to_string(),
+            peer_asn: p.expected_remote_asn,
+            local_asn: p.local_asn,
+            peer_group: pc.group.clone().unwrap_or_default(),
+            admin_down: p.admin_down,
+            ..Default::default()
+        }),
+        timers: Some(api::Timers {
+            config: Some(api::TimersConfig {
+                hold_time: if p.holdtime == PeerParams::DEFAULT_HOLD_TIME { 0 } else { p.holdtime },
+                ..Default::default()
+            }),
+            ..Default::default()
+        }),
+        transport: Some(api::Transport {
+            passive_mode: p.passive,
+            remote_port: p.remote_port as u32,
+            ..Default::default()
+        }),
+        route_server: Some(api::RouteServer {
+            route_server_client: p.rs_client,
+            ..Default::default()
+        }),
+        route_reflector: Some(api::RouteReflector {
+            route_reflector_client: p.route_reflector.route_reflector_client,
+            route_reflector_cluster_id: p
+                .route_reflector
+                .route_reflector_cluster_id
+                .map(|a| a.to_string())
+                .unwrap_or_default(),
+        }),
+        apply_policy: p.export_policy.as_ref().map(|(d, names)| api::ApplyPolicy {
+            export_policy: Some(api::PolicyAssignment {
+                default_action: match d {
+                    table::Disposition::Accept => api::RouteAction::Accept as i32,
+                    _ => api::RouteAction::Reject as i32,
+                },
+                policies: names
+                    .iter()
+                    .map(|n| api::Policy {
+                        name: n.clone(),
+                        ..Default::default()
+                    })
+                    .collect(),
+                ..Default::default()
+            }),
+            ..Default::default()
+        }),
+        afi_safis,
+        ..Default::default()
+    })
+}
+
 /// (peer ip expected local_asn hold passive rs rrclient cluster admin_down (fams..) (sm..) (pl..) gr llgr pol group)
 fn peer_of(t: &Term) -> Option<PeerCase> {
     match t.tagged("peer")? {
         [ip, exp, lasn, hold, passive, rs, rrc, cluster, down, fams, sm, pl, gr, llgr, pol, group] => {
+            // none | (some accept|reject (policy names..))
             let export_policy = match opt_of(pol)? {
                 None => None,
-                Some(d) => Some((
-                    match d.as_atom()? {
-                        "accept" => table::Disposition::Accept,
-                        "reject" => table::Disposition::Reject,
-                        _ => return None,
-                    },
-                    Vec::new(),
-                )),
+                Some(d) => match d.as_list()? {
+                    [disp, names] => Some((
+                        match disp.as_atom()? {
+                            "accept" => table::Disposition::Accept,
+                            "reject" => table::Disposition::Reject,
+                            _ => return None,
+                        },
+                        names
+                            .as_list()?
+                            .iter()
+                            .map(|n| n.as_atom().map(|x| x.to_string()))
+                            .collect::<Option<Vec<String>>>()?,
+                    )),
+                    _ => return None,
+                },
             };
             Some(PeerCase {
                 params: PeerParams {
@@ -658,11 +765,14 @@ fn peer_cfg_t(p: &Peer, g: &Global) -> Term {
         None => Term::atom("none"),
         Some(a) => Term::tag(
             "some",
-            vec![Term::atom(match a.disposition {
-                table::Disposition::Accept => "accept",
-                table::Disposition::Reject => "reject",
-                _ => "other",
-            })],
+            vec![Term::list(vec![
+                Term::atom(match a.disposition {
+                    table::Disposition::Accept => "accept",
+                    table::Disposition::Reject => "reject",
+                    _ => "other",
+                }),
+                Term::list(a.policies.iter().map(|p| Term::atom(p.name.to_string())).collect()),
+            ])],
         ),
     };
     Term::tag(
@@ -764,45 +874,133 @@ async fn pair_from(net: &Net, src: IpAddr) -> std::io::Result<(TcpStream, TcpStr
     Ok((c, s))
 }
 
-/// What the remote end sees first on the connection.
-async fn read_first_message(client: &mut TcpStream) -> Term {
-    use tokio::io::AsyncReadExt;
-    let mut buf = bytes::BytesMut::with_capacity(4096);
-    let mut codec = bgp::PeerCodec::new();
-    loop {
-        match codec.try_parse(&mut buf) {
-            Ok(Some(p)) => {
-                return match bgp::validate_message(p, true) {
-                    Ok(it) => match it.into_iter().next() {
-                        Some(bgp::Message::Open(o)) => Term::tag(
-                            "open",
-                            vec![
-                                Term::nat(o.as_number),
-                                Term::nat(o.holdtime.seconds()),
-                                Term::nat(o.router_id),
-                                canon_caps(&o.capability),
-                            ],
-                        ),
-                        Some(bgp::Message::Notification(n)) => Term::tag(
-                            "notif",
-                            vec![Term::nat(n.notification_code()), Term::nat(n.notification_subcode())],
-                        ),
-                        Some(_) => Term::atom("other-message"),
-                        None => Term::atom("no-message"),
-                    },
-                    Err(_) => Term::atom("invalid-message"),
-                };
-            }
-            Ok(None) => {}
-            Err(_) => return Term::atom("unparsable"),
-        }
-        match tokio::time::timeout(Duration::from_secs(5), client.read_buf(&mut buf)).await {
-            Ok(Ok(0)) => return Term::tag("closed", vec![Term::nat(buf.len() as u64)]),
-            Ok(Ok(_)) => {}
-            Ok(Err(_)) => return Term::tag("closed", vec![Term::nat(buf.len() as u64)]),
-            Err(_) => return Term::atom("timeout"),
+/// The remote end's view of the connection: BGP messages as they arrive.
+struct Remote {
+    buf: bytes::BytesMut,
+    codec: bgp::PeerCodec,
+}
+
+enum Seen {
+    Msg(bgp::Message),
+    Closed(usize),
+    Timeout,
+    Bad(&'static str),
+}
+
+impl Remote {
+    fn new() -> Self {
+        Remote {
+            buf: bytes::BytesMut::with_capacity(4096),
+            codec: bgp::PeerCodec::new(),
         }
     }
+    async fn next(&mut self, client: &mut TcpStream, wait: Duration) -> Seen {
+        use tokio::io::AsyncReadExt;
+        loop {
+            match self.codec.try_parse(&mut self.buf) {
+                Ok(Some(p)) => {
+                    return match bgp::validate_message(p, true) {
+                        Ok(it) => match it.into_iter().next() {
+                            Some(m) => Seen::Msg(m),
+                            None => Seen::Bad("no-message"),
+                        },
+                        Err(_) => Seen::Bad("invalid-message"),
+                    };
+                }
+                Ok(None) => {}
+                Err(_) => return Seen::Bad("unparsable"),
+            }
+            match tokio::time::timeout(wait, client.read_buf(&mut self.buf)).await {
+                Ok(Ok(0)) | Ok(Err(_)) => return Seen::Closed(self.buf.len()),
+                Ok(Ok(_)) => {}
+                Err(_) => return Seen::Timeout,
+            }
+        }
+    }
+}
+
+fn seen_t(s: &Seen) -> Term {
+    match s {
+        Seen::Msg(bgp::Message::Open(o)) => Term::tag(
+            "open",
+            vec![
+                Term::nat(o.as_number),
+                Term::nat(o.holdtime.seconds()),
+                Term::nat(o.router_id),
+                canon_caps(&o.capability),
+            ],
+        ),
+        Seen::Msg(bgp::Message::Notification(n)) => Term::tag(
+            "notif",
+            vec![Term::nat(n.notification_code()), Term::nat(n.notification_subcode())],
+        ),
+        Seen::Msg(bgp::Message::Keepalive) => Term::atom("keepalive"),
+        Seen::Msg(bgp::Message::Update(bgp::Update::EndOfRib(_))) => Term::atom("end-of-rib"),
+        Seen::Msg(bgp::Message::Update(_)) => Term::atom("update"),
+        Seen::Msg(_) => Term::atom("other-message"),
+        Seen::Closed(n) => Term::tag("closed", vec![Term::nat(*n as u64)]),
+        Seen::Timeout => Term::atom("timeout"),
+        Seen::Bad(w) => Term::atom(*w),
+    }
+}
+
+/// What the remote end sees first on the connection.
+async fn read_first_message(client: &mut TcpStream) -> Term {
+    seen_t(&Remote::new().next(client, Duration::from_secs(5)).await)
+}
+
+async fn send_msg(client: &mut TcpStream, m: &bgp::Message) -> bool {
+    use tokio::io::AsyncWriteExt;
+    let mut out = bytes::BytesMut::with_capacity(4096);
+    bgp::PeerCodec::new().encode_to(m, &mut out).is_ok() && client.write_all(&out).await.is_ok()
+}
+
+/// The remote end answers the OPEN with its own (AS `asn`, hold time `hold`, the same capabilities
+/// with its own 4-octet AS), then a KEEPALIVE if it is not turned away, waits for the End-of-RIB of
+/// the established session and goes away.
+async fn remote_dialogue(client: &mut TcpStream, asn: u32, hold: u16) -> Vec<Term> {
+    let mut remote = Remote::new();
+    let first = remote.next(client, Duration::from_secs(5)).await;
+    let mut seen = vec![seen_t(&first)];
+    let Seen::Msg(bgp::Message::Open(o)) = first else { return seen };
+    let caps: Vec<packet::Capability> = o
+        .capability
+        .iter()
+        .map(|c| match c {
+            packet::Capability::FourOctetAsNumber(_) => packet::Capability::FourOctetAsNumber(asn),
+            c => c.clone(),
+        })
+        .collect();
+    let Some(ht) = HoldTime::new(hold) else { return seen };
+    // from here on the remote end parses with what the two OPENs negotiate
+    remote.codec = bgp::PeerCodec::negotiate(&caps, &o.capability);
+    if !send_msg(
+        client,
+        &bgp::Message::Open(bgp::Open {
+            as_number: asn,
+            holdtime: ht,
+            router_id: 0x0202_0202,
+            capability: caps,
+        }),
+    )
+    .await
+    {
+        seen.push(Term::atom("send-failed"));
+        return seen;
+    }
+    let second = remote.next(client, Duration::from_secs(5)).await;
+    seen.push(seen_t(&second));
+    if !matches!(second, Seen::Msg(bgp::Message::Keepalive)) {
+        return seen;
+    }
+    if !send_msg(client, &bgp::Message::Keepalive).await {
+        seen.push(Term::atom("send-failed"));
+        return seen;
+    }
+    // Established: the End-of-RIB markers of the (empty) initial table dump
+    let third = remote.next(client, Duration::from_secs(5)).await;
+    seen.push(seen_t(&third));
+    seen
 }
 
 struct Live {
@@ -937,6 +1135,17 @@ async fn run_hist(gt: &Term, groups: &Term, peers: &Term, ops: &Term) -> Option<
                 }
                 _ => return None,
             },
+            "discx" => match o.tagged("discx")? {
+                [s, a, h] => {
+                    s.as_u64()?;
+                    u_of(a, u32::MAX as u64)?;
+                    let h = u_of(h, 65535)?;
+                    if h == 1 || h == 2 {
+                        return None;
+                    }
+                }
+                _ => return None,
+            },
             h @ ("enable" | "disable" | "delete" | "shutdown" | "reset") => match o.tagged(h)? {
                 [a] => {
                     ip_of(a)?;
@@ -954,19 +1163,66 @@ async fn run_hist(gt: &Term, groups: &Term, peers: &Term, ops: &Term) -> Option<
     g.asn = asn;
     g.router_id = Ipv4Addr::from(rid);
     g.confederation = confed;
-    for gc in groups {
+    // the policies a neighbour may name: p1 and p2 exist, anything else does not
+    for (name, disp) in [("p1", table::Disposition::Accept), ("p2", table::Disposition::Reject)] {
+        let stmt = format!("{name}-stmt");
+        g.ptable
+            .add_statement(&stmt, Vec::new(), Some(disp), table::Actions::default())
+            .ok()?;
+        g.ptable.add_policy(name, vec![stmt]).ok()?;
+    }
+    // groups are installed without their dynamic prefixes; those go through the real handler below
+    let mut group_nets: Vec<(String, Vec<packet::IpNet>)> = Vec::new();
+    for mut gc in groups {
+        let nets: Vec<packet::IpNet> = std::mem::take(&mut gc.group.dynamic_peers).into_iter().map(|d| d.prefix).collect();
+        // HashMap::insert: a later group of the same name replaces the earlier one, prefixes included
+        group_nets.retain(|(n, _)| *n != gc.name);
+        group_nets.push((gc.name.clone(), nets));
         g.peer_group.insert(gc.name, gc.group);
     }
-    // ---- configured neighbours: the config-loading path (apply_peer_group, then add_peer)
+    let global: GlobalHandle = Arc::new(tokio::sync::RwLock::new(g));
+    let tables = make_tables();
+    let svc = GrpcService::new(
+        Arc::new(tokio::sync::Notify::new()),
+        active_tx.clone(),
+        global.clone(),
+        tables.clone(),
+    );
+    // ---- dynamic prefixes: the real AddDynamicNeighbor handler (IpNet::from_str on the textual prefix)
+    for (name, nets) in group_nets {
+        for n in nets {
+            let _ = svc
+                .add_dynamic_neighbor(tonic::Request::new(api::AddDynamicNeighborRequest {
+                    dynamic_neighbor: Some(api::DynamicNeighbor {
+                        prefix: n.to_string(),
+                        peer_group: name.clone(),
+                    }),
+                }))
+                .await;
+        }
+    }
+    // ---- configured neighbours: through the real AddPeer handler (PeerParams::try_from(&api::Peer),
+    // apply_peer_group, add_peer) whenever the parameters can be written as an API message, otherwise
+    // the configuration-loading sequence (apply_peer_group, then add_peer) on the parameters themselves
     let mut added = Vec::new();
     for pc in peers {
-        let mut params = pc.params;
-        if let Some(pg) = pc.group.as_deref().and_then(|n| g.peer_group.get(n)) {
-            params.apply_peer_group(pg);
+        if let Some(api_peer) = api_peer_of(&pc) {
+            let ok = svc
+                .add_peer(tonic::Request::new(api::AddPeerRequest { peer: Some(api_peer) }))
+                .await
+                .is_ok();
+            added.push(Term::boolean(ok));
+        } else {
+            let mut g = global.write().await;
+            let mut params = pc.params;
+            if let Some(pg) = pc.group.as_deref().and_then(|n| g.peer_group.get(n)) {
+                params.apply_peer_group(pg);
+            }
+            added.push(Term::boolean(g.add_peer(params, None).is_ok()));
         }
-        added.push(Term::boolean(g.add_peer(params, None).is_ok()));
     }
     let setup = {
+        let g = global.read().await;
         let mut v: Vec<(Vec<u8>, Term)> = g
             .peers
             .iter()
@@ -978,14 +1234,6 @@ async fn run_hist(gt: &Term, groups: &Term, peers: &Term, ops: &Term) -> Option<
             vec![Term::list(added), Term::list(v.into_iter().map(|x| x.1).collect())],
         )
     };
-    let global: GlobalHandle = Arc::new(tokio::sync::RwLock::new(g));
-    let tables = make_tables();
-    let svc = GrpcService::new(
-        Arc::new(tokio::sync::Notify::new()),
-        active_tx.clone(),
-        global.clone(),
-        tables.clone(),
-    );
     let Some(net) = case_net() else {
         return Some("(harness-cannot-listen)".into());
     };
@@ -1070,6 +1318,28 @@ async fn run_hist(gt: &Term, groups: &Term, peers: &Term, ops: &Term) -> Option<
                             Term::tag("disc-timeout", vec![first])
                         } else {
                             Term::tag("disc", vec![first])
+                        }
+                    }
+                }
+            }
+            "discx" => {
+                let [s, a, h] = o.tagged("discx")? else { return None };
+                let sid = s.as_u64()? as usize;
+                let (asn, hold) = (a.as_u64()? as u32, h.as_u64()? as u16);
+                match live.get_mut(sid).and_then(|x| x.take()) {
+                    None => Term::atom("no-session"),
+                    Some(Live { session, mut client }) => {
+                        let run = session.run(global.clone(), active_tx.clone());
+                        let script = async move {
+                            let seen = remote_dialogue(&mut client, asn, hold).await;
+                            drop(client);
+                            seen
+                        };
+                        let (done, seen) = tokio::join!(tokio::time::timeout(Duration::from_secs(10), run), script);
+                        if done.is_err() {
+                            Term::tag("disc-timeout", seen)
+                        } else {
+                            Term::tag("disc", seen)
                         }
                     }
                 }
